@@ -278,7 +278,11 @@ def run(project, chk):
                 continue
             lits = common_literals(G.get(n.id))
             v = n.ast.value
-            if ("self.is_valid", False) in lits:
+            alts = G.get(n.id) or frozenset()
+            on_invalid = [a for a in alts if ("self.is_valid", False) in a]
+            on_valid = [a for a in alts if ("self.is_valid", True) in a]
+            if on_invalid and len(on_invalid) + len(on_valid) == len(alts):
+                # reached for invalid pairs (possibly shared with a valid-pair path): what is returned must be the documented constant
                 if want[0] == "const":
                     ok = isinstance(v, ast.Constant) and v.value == want[1]
                 else:
